@@ -865,12 +865,9 @@ impl<'a, 'b> TryInto<AnnotationBuilder<'a>> for AnnotationCsv<'a> {
                 }
                 selectortypes.push(selectortype);
             }
-            if complex && selectortypes.len() == 1 {
-                return Err(StamError::CsvError(
-                    format!("A complex selector can not be defined without any subselectors"),
-                    "",
-                ));
-            } else if selectortypes.is_empty() {
+            //a complex selector type on its own is a complex selector without subselectors
+            //(annotate() accepts those and the writer emits such rows)
+            if selectortypes.is_empty() {
                 return Err(StamError::CsvError(
                     format!("The SelectorType column can not be empty"),
                     "",
